@@ -100,6 +100,17 @@ def replay(ob):
             if 1.5 in sp or (1, 2) in sp:
                 return {'reproduced': True, 'detail': 'an object without a space is a member of %r' % (sp,)}
         return {'reproduced': False, 'detail': 'membership coherent on the native pool'}
+    if ob['unit'].startswith('derived/astype'):
+        odl, np = _odl()
+        for sp in (odl.rn(3), odl.rn(3, exponent=1.0), odl.rn(3, weighting=2.0), odl.rn(3, weighting=2.0, exponent=1.5), odl.rn(2, weighting=np.array([1.0, 2.0])),
+                   odl.rn(2, weighting=np.array([1.0, 2.0]), exponent=1.0), odl.cn(3, exponent=1.0), odl.rn((2, 3), exponent=float('inf'))):
+            for dt in ('float32', 'float64', 'complex64', 'complex128'):
+                new = sp.astype(dt)
+                if new.shape != sp.shape or new.dtype != np.dtype(dt):
+                    return {'reproduced': True, 'detail': '%r.astype(%s) = %r: shape / dtype' % (sp, dt, new)}
+                if not (new.weighting == sp.weighting) or new.exponent != sp.exponent:
+                    return {'reproduced': True, 'detail': '%r.astype(%s) has weighting %r (exponent %r), original %r (exponent %r)' % (sp, dt, new.weighting, new.exponent, sp.weighting, sp.exponent)}
+        return {'reproduced': False, 'detail': 'astype keeps shape, dtype and weighting on the native pool'}
     A = pool(cls)
     B = pool(other) if other else A
     if A is None or B is None:
